@@ -65,7 +65,7 @@ def command_text(snap, t):
     if t.get("prelude"):
         L.append(t["prelude"])
     if t["beh"] == "f":
-        L.append("exit 3")
+        L.append(fail_line(t))
     depouts = []
     for d in t["deps"]:
         dt = nodes[resolve(nodes, d)]
@@ -113,9 +113,24 @@ def command_text(snap, t):
     if t.get("sleep_after"):
         L.append(t["sleep_after"])          # after the outputs are in place (e.g. "sleep 3 & wait $!")
     if t["beh"] == "a":
-        L.append("exit 3")
+        L.append(fail_line(t))
+        return "\n".join(L)      # nothing after it: with the and-list form the script ENDS with the failing status
     L.append('echo %s >> "$VTRACE"' % q("E " + lab))
     return "\n".join(L)
+
+
+FAIL_HOW = ["exit", "exit", "term", "kill", "int", "andlist", "subshell"]
+
+
+def fail_line(t):
+    """HOW a failing command fails (the model knows only THAT it fails): a plain exit status, death by a signal that did not come
+    from grog, a failing and-list as the last command (set -e does not abort on it; the script's status is the list's), a subshell"""
+    how = t.get("failhow") or FAIL_HOW[sum(t["name"].encode()) % len(FAIL_HOW)]
+    if how == "andlist" and t["beh"] != "a":
+        how = "exit"          # only as the LAST command does a failing and-list end the script (set -e does not abort on it)
+    return {"exit": "exit 3", "term": "kill -TERM $$; sleep 5; exit 3", "kill": "kill -KILL $$; sleep 5; exit 3",
+            "int": "kill -INT $$; sleep 5; exit 3", "andlist": "test -f /nonexistent-zz/x && grep -q ready /nonexistent-zz/x",
+            "subshell": "(exit 3)"}[how]
 
 
 def ext_name(t):
@@ -150,7 +165,10 @@ def render(snap, ws):
         if n.get("fp"):
             t["fingerprint"] = dict(n["fp"])
         if n.get("check"):
-            t["output_checks"] = [{"command": 'test -f "$GROG_WORKSPACE_ROOT/ext"/%s' % q(ext_name(n))}]
+            chk = 'test -f "$GROG_WORKSPACE_ROOT/ext"/%s' % q(ext_name(n))
+            if sum(n["name"].encode()) % 2:
+                chk += ' && test -r "$GROG_WORKSPACE_ROOT/ext"/%s' % q(ext_name(n))     # an and-list: its status is the check's verdict
+            t["output_checks"] = [{"command": chk}]
         if n.get("timeout"):
             t["timeout"] = n["timeout"]
         pkgs[n["pkg"]]["targets"].append(t)
